@@ -29,8 +29,10 @@ EXTENDS Naturals, Sequences, FiniteSets, TLC
 
 CONSTANTS
     MaxW,        \* data units each application end may write
-    KeepL,       \* application end L keeps its socket open when it sees EOF
-    KeepR,       \*   (half-close capable); FALSE = closes on EOF (asyncio default)
+    Keeps,       \* subset of {"TT","TF","FT","FF"} (L, R): does the application
+                 \*   end keep its socket open when it sees EOF (half-close
+                 \*   capable, T) or close it (asyncio's default, F); chosen
+                 \*   initially
     AllowFail,   \* the open request may be refused (destination unreachable)
     AllowReset,  \* an application socket may be reset (connection_lost(exc))
     AllowCut,    \* the SSH connection may be lost
@@ -42,7 +44,6 @@ CONSTANTS
 
 Ends == {"L", "R"}
 Other(e) == IF e = "L" THEN "R" ELSE "L"
-Keep(e) == IF e = "L" THEN KeepL ELSE KeepR
 Side(e) == IF e = "L" THEN "O" ELSE "A"
 End(x) == IF x = "O" THEN "L" ELSE "R"
 Msg(t, ds) == [t |-> t, ds |-> ds]
@@ -55,7 +56,9 @@ IsPrefix(a, b) == Len(a) <= Len(b) /\ SubSeq(b, 1, Len(a)) = a
 B2 == [L |-> FALSE, R |-> FALSE]
 
 Init ==
-    /\ S = [sent |-> [L |-> <<>>, R |-> <<>>],      \* written by the application end
+    /\ \E kp \in Keeps :
+       S = [keep |-> [L |-> kp \in {"TT", "TF"}, R |-> kp \in {"TT", "FT"}],
+            sent |-> [L |-> <<>>, R |-> <<>>],      \* written by the application end
             rcvd |-> [L |-> <<>>, R |-> <<>>],      \* received by the application end
             appSt |-> [L |-> "open", R |-> "none"], \* none (not connected) / open / closed
             appFin |-> B2,                          \* application sent FIN (write_eof or close)
@@ -100,8 +103,8 @@ PairClose(s, x) ==
               THEN LET t == [s EXCEPT !.sock[e] = "closed", !.fFin[e] = TRUE]
                    IN IF ~s.fFin[e] /\ s.appSt[e] = "open" /\ ~s.appEof[e]
                       THEN [t EXCEPT !.appEof[e] = TRUE,
-                                     !.appSt[e] = IF Keep(e) THEN "open" ELSE "closed",
-                                     !.appFin[e] = IF Keep(e) THEN @ ELSE TRUE]
+                                     !.appSt[e] = IF s.keep[e] THEN "open" ELSE "closed",
+                                     !.appFin[e] = IF s.keep[e] THEN @ ELSE TRUE]
                       ELSE t
               ELSE s
         s2 == IF s1.pair[x] \in {"up", "zombie"} THEN ChanClose(s1, x) ELSE s1
@@ -136,7 +139,7 @@ AppGetsFin(s, e) ==
     ELSE LET s1 == [s EXCEPT !.fFin[e] = TRUE]
          IN IF s1.appSt[e] = "open" /\ ~s1.appEof[e]
             THEN LET s2 == [s1 EXCEPT !.appEof[e] = TRUE]
-                 IN IF Keep(e) THEN s2
+                 IN IF s.keep[e] THEN s2
                     ELSE LET s3 == [s2 EXCEPT !.appSt[e] = "closed"]
                          IN IF s3.appFin[e] THEN s3
                             ELSE FwdEof([s3 EXCEPT !.appFin[e] = TRUE,
